@@ -146,7 +146,7 @@ theorem concatenate_channels (byTol : Bool) (τ : Rat) (hτ : 0 < τ) (chans : L
     | nil => exact absurd rfl hcne
     | cons sw r =>
       obtain ⟨p, hpp, _⟩ := procPulse_ok sw.2 (Valid.chain hcv).1
-      simp [procs, List.filterMap_cons, hpp]
+      simp [procs, hpp]
   have hprocs_pos : ∀ p ∈ procs chans, 0 < p.step := by
     intro p hp
     simp only [procs, List.mem_filterMap, List.mem_flatten] at hp
